@@ -7,114 +7,17 @@ Line-protocol component `tcpmux` (property C15): the model's canonical output fo
 the harness (`harness/inpkg/zz_verif_tcpmux_test.go`), and the spec monitor of C15 evaluated on the
 implementation's own outputs.
 
-The output line of the model is the printed form (`digest`) of the typed observation
-`IceSpec.C15.View.obsOf` about which `C15_model_passes_monitor` is proved; every printed line is read
-back with the monitor's own parser and compared with the typed line (`VIEW-DISAGREES` otherwise), so
-the printing/parsing layer between theorem and monitor is checked on every generated line.
+The output line of the model is the printed form (`IceSpec.C15.View.printedLine` = `IceSpec.C15.printObs`
+of the typed observation `IceSpec.C15.View.obsOf`) about which `C15_model_passes_monitor` is proved;
+`IceProps.C15.C15_view_roundtrip_model` proves that the monitor's own parser reads every printed line
+back as the typed line, `C15_model_passes_string_monitor` that the string monitor accepts every printed
+run.  `C15_view_ops` proves that the monitor reads the operation tokens as the typed operation of whatever
+`parseOp` accepts (a non-canonical payload id is refused: `bad-op`), so the former per-line comparison
+(`VIEW-DISAGREES`) is gone.
 -/
 namespace Driver.TcpMux
 open IceModel.TcpMux Driver
-open IceSpec.C15.View (idxWhere newReplies ledgerList obsOf lineOf mopOf oresOf endOps allDown endLine)
-
-def fmtAddr (a : Addr) : String := s!"{a.ip}:{a.port}"
-
-def fmtErr : ErrKind → String
-  | .eof => "err:eof" | .reset => "err:reset" | .short => "err:short"
-
-def fmtRes : IceModel.TcpMux.Res → String
-  | .ok => "ok" | .refused => "refused" | .noop => "noop" | .bad => "bad-op" | .already => "already"
-  | .sent n => s!"sent {n}"
-  | .handle h => s!"h{h}"
-  | .errClosed => "err:closed"
-  | .wrote n => s!"n={n}"
-  | .pkt p => match p.err with
-    | none => s!"pkt {fmtAddr p.src} {if p.len < 4 then "-" else toString p.fid} {p.len}"
-    | some e => s!"{fmtErr e} {fmtAddr p.src}"
-  | .empty => "empty"
-
-/-- the printed form of the observation `obsOf old s _` with result text `res` -/
-def digest (old : List Tcp) (s : State) (res : String) : String :=
-  let closed := ",".intercalate ((idxWhere s.tcps (·.isClosed)).map toString)
-  let outs := ",".intercalate ((newReplies old s.tcps).map (fun (k, id) => s!"{k}:{id}"))
-  let g := "/".intercalate ((ledgerList s).map toString)
-  let b (x : Bool) : String := if x then "1" else "0"
-  s!"{res} ; c={closed} ; o={outs} ; g={g} ; L={b (!s.listenerOpen)} ; ret={b (closeReturned s)}"
-
-def parseKind (s : String) : Option FKind :=
-  match s.toList with
-  | 'u' :: r => some (.user (String.ofList r))
-  | 'w' :: r => some (.user (String.ofList r))
-  | ['n'] => some .noUser
-  | ['o'] => some .otherMethod
-  | ['g'] => some .notStun
-  | ['d'] => some .notStun
-  | _ => none
-
-def parseU (s : String) : Option String :=
-  match s.toList with
-  | 'U' :: r => some (String.ofList r)
-  | _ => none
-
-def parseH (s : String) : Option Nat :=
-  match s.toList with
-  | 'h' :: r => (String.ofList r).toNat?
-  | _ => none
-
-/-- one harness operation → model operation(s); `none` = malformed -/
-def parseOp (s : State) (toks : List String) : Option Op :=
-  match toks with
-  | ["accept", k, ip, port, lip] =>
-    match k.toNat?, ip.toNat?, port.toNat?, lip.toNat? with
-    | some k, some ip, some port, some lip =>
-      if k = s.tcps.length ∧ ip < 4 ∧ lip < 4 then some (.accept ⟨ip, port⟩ lip) else none
-    | _, _, _, _ => none
-  | ["frame", k, fid, kind, len] =>
-    match k.toNat?, fid.toNat?, parseKind kind, len.toNat? with
-    | some k, some fid, some kind, some len => some (.frame k ⟨fid, kind, len⟩)
-    | _, _, _, _ => none
-  | ["partial", k, _fid, _kind, _len, _cut] => k.toNat?.map .partialFrame
-  | ["cclose", k] => k.toNat?.map (.clientClose · false)
-  | ["creset", k] => k.toNat?.map (.clientClose · true)
-  | ["advance", dt] => dt.toNat?.map .advance
-  | ["getconn", u, v6, lip] =>
-    match parseU u, lip.toNat? with
-    | some u, some lip => if lip < 4 then some (.getConn ⟨u, v6 == "1", lip⟩) else none
-    | _, _ => none
-  | ["remove", u] => (parseU u).map .removeByUfrag
-  | ["closeh", h] => (parseH h).map .closeHandle
-  | ["closepc", h] => (parseH h).map .closePacketConn
-  | ["write", h, ip, port, pid, len] =>
-    match parseH h, ip.toNat?, port.toNat?, pid.toNat?, len.toNat? with
-    | some h, some ip, some port, some pid, some len => if ip < 4 then some (.write h ⟨ip, port⟩ pid len) else none
-    | _, _, _, _, _ => none
-  | ["read", h] => (parseH h).map .read
-  | ["closemux"] => some .closeMux
-  | _ => none
-
-/-! S2: `MultiTCPMuxDefault.GetAllConns` — the first failing mux aborts the loop, nothing is released -/
-def multiGetAll : List State → Key → List State × Bool
-  | [], _ => ([], true)
-  | m :: ms, key =>
-    match step m (.getConn key) with
-    | (m', .handle _) => let (ms', ok) := multiGetAll ms key; (m' :: ms', ok)
-    | (m', _) => (m' :: ms, false)
-
-def multiLine (n bad : Nat) (hasBad : Bool) : String :=
-  let key : Key := ⟨"a", false, 0⟩
-  let muxes := (List.range n).map (fun i =>
-    let m := init ⟨0, false, 0, 0⟩
-    if hasBad ∧ i = bad then (step m .closeMux).1 else m)
-  if n = 0 then "err:nomux ;  ; afterRemove=0 ; g=0" else
-  let (ms, ok) := multiGetAll muxes key
-  let res := if ok then s!"n={n}" else "err:closed"
-  let per := ms.map (fun m => match findPc m.pcs key with
-    | some p => (match m.pcs[p]? with | some pc => s!"reg:{pc.refs}" | none => "none")
-    | none => "none")
-  let ms2 := ms.map (fun m => (step m (.removeByUfrag "a")).1)
-  let after := (ms2.filter (fun m => (findPc m.pcs key).isSome)).length
-  let ms3 := ms2.map (fun m => (step m .closeMux).1)
-  let g := ms3.foldl (fun acc m => let l := ledger m; acc + l.acceptor + l.handlers + l.watchers + l.readers + l.writers) 0
-  s!"{res} ; {",".intercalate per} ; afterRemove={after} ; g={g}"
+open IceSpec.C15.View (idxWhere newReplies ledgerList obsOf lineOf mopOf oresOf endOps allDown endLine printedStart printedLine printedEnd parseOp)
 
 structure St where
   model : Option State := none
@@ -133,51 +36,15 @@ def init : State := {}
 
 def step (st : State) (toks : List String) (impl : String) : State × Res :=
   let (mon', verdict) := monStep st toks impl
-  -- `view` = the typed operation and line of `IceSpec.C15.View` that `out` is the printed form of
-  let fin (m : Option IceModel.TcpMux.State) (out : String)
-      (view : Option (IceSpec.C15.MOp × IceSpec.C15.Line) := none) : State × Driver.Res :=
-    let (monM', vM) := IceSpec.C15.observe st.monM toks out
-    let out := match vM with
-      | some why => s!"MODEL-REJECTED-BY-MONITOR({why}) {out}"
-      | none => out
-    let out := match view with
-      | some (mop, line) =>
-        if IceSpec.C15.parseToks toks = mop ∧ IceSpec.C15.parseLine out = line then out
-        else s!"VIEW-DISAGREES {out}"
-      | none => out
-    ({ model := m, mon := mon', monM := monM' }, { model := out, monitor := verdict, prop := "C15" })
-  match toks with
-  | ["new", cap, wbuf, t1, t2] =>
-    match cap.toNat?, wbuf.toNat?, t1.toNat?, t2.toNat? with
-    | some cap, some wbuf, some t1, some t2 =>
-      let s := IceModel.TcpMux.init ⟨cap, wbuf > 0, t1, t2⟩
-      fin (some s) (digest [] s "ok") (some (.start t1 t2, .obs (obsOf [] s .ok)))
-    | _, _, _, _ => fin none "bad-op"
-  | ["multi", n, bad] =>
-    match n.toNat?, bad.toInt? with
-    | some n, some bad =>
-      if n ≤ 4 ∧ bad < (n : Int) then fin none (multiLine n bad.toNat (bad ≥ 0)) else fin none "bad-op"
-    | _, _ => fin none "bad-op"
-  | ["end"] =>
-    match st.model with
-    | none => fin none "end ok (no mux)"
-    | some s =>
-      let s' := run s (endOps s)
-      fin none (digest s.tcps s' (if allDown s' then "end ok" else "end LEAK")) (some (.finish, endLine s))
-  | _ =>
-    match st.model with
-    | none => fin none "no-session"
-    | some s =>
-      match parseOp s toks with
-      | none => fin (some s) "bad-op"
-      | some op =>
-        let (s', r) := IceModel.TcpMux.step s op
-        match r with
-        | .bad => fin (some s) "bad-op" (some (mopOf op, lineOf s op))
-        | _ =>
-          let rs := match op, r with
-            | .partialFrame _, .ok => "sent"
-            | _, _ => fmtRes r
-          fin (some s') (digest s.tcps s' rs) (some (mopOf op, lineOf s op))
+  -- the model side (`IceSpec.C15.View.modelStep`): next model state and the printed output line.  The second
+  -- monitor copy judges the model's own output; `IceProps.C15.C15_driver_model_accepted` proves that it never
+  -- rejects, for ANY sequence of input lines — the test below is kept as a guard on the proof's reading of
+  -- this file only.
+  let (model', out) := IceSpec.C15.View.modelStep st.model toks
+  let (monM', vM) := IceSpec.C15.observe st.monM toks out
+  let out := match vM with
+    | some why => s!"MODEL-REJECTED-BY-MONITOR({why}) {out}"
+    | none => out
+  ({ model := model', mon := mon', monM := monM' }, { model := out, monitor := verdict, prop := "C15" })
 
 end Driver.TcpMux
